@@ -40,10 +40,12 @@ type runSpec struct {
 	BadSig bool   `json:"badsig"` // the signal's payload is rejected by the handler's schema
 	Beh    string `json:"beh"`    // ok | err | panic | nostep (Execute with a blank step ID)
 	Emit   bool   `json:"emit"`   // pass a signalsFromStep channel
-	As     string `json:"as"`     // run ID to use instead of ID (a run ID used again, or - with Dup - while it is in flight)
-	Dup    bool   `json:"dup"`    // As names a run ID that another caller of the same phase uses at the same time
-	Step   string `json:"step"`   // with Echo > 0: "" = the echo step, "opt" = the all-optional step, "nosuch" = a step the plugin does not have
-	After  string `json:"after"`  // the step of this run finishes only when the caller of run After has returned (a slow step)
+	// with As: pass the VERY channel the other caller of that run ID passes (a retry of the identical call)
+	ShareFrom bool   `json:"share_from"`
+	As        string `json:"as"`    // run ID to use instead of ID (a run ID used again, or - with Dup - while it is in flight)
+	Dup       bool   `json:"dup"`   // As names a run ID that another caller of the same phase uses at the same time
+	Step      string `json:"step"`  // with Echo > 0: "" = the echo step, "opt" = the all-optional step, "nosuch" = a step the plugin does not have
+	After     string `json:"after"` // the step of this run finishes only when the caller of run After has returned (a slow step)
 }
 
 type action struct {
@@ -70,8 +72,10 @@ type clientOp struct {
 	Op   string `json:"op"` // exec | reply | unsol | garbage | partial | close_out | close_in | close | settle
 	Run  string `json:"run"`
 	Kind string `json:"kind"`
-	Emit bool   `json:"emit"`
-	Sig  bool   `json:"sig"` // exec: pass a signalsToStep channel that the caller leaves open
+	// hello_srv: several items written with ONE Write call (the server's decoder gets them with one Read)
+	Kinds []string `json:"kinds"`
+	Emit  bool     `json:"emit"`
+	Sig   bool     `json:"sig"` // exec: pass a signalsToStep channel that the caller leaves open
 }
 
 type faultSpec struct {
@@ -378,9 +382,17 @@ func (w *world) spawnCaller(id string) {
 		w.mu.Unlock()
 	}
 	if rs.Emit {
-		from = make(chan schema.Input, 4)
 		w.mu.Lock()
-		w.sigFrm[id] = from
+		key := id
+		if rs.ShareFrom && rs.As != "" {
+			key = rs.As
+		}
+		if ch, ok := w.sigFrm[key]; ok {
+			from = ch
+		} else {
+			from = make(chan schema.Input, 4)
+			w.sigFrm[key] = from
+		}
 		w.mu.Unlock()
 	}
 	w.mu.Lock()
